@@ -6,6 +6,7 @@ mod rng;
 mod fixedwindow;
 mod fsutil;
 mod levelgate;
+mod literals;
 mod reconfig;
 mod reloader;
 mod rolling;
@@ -23,6 +24,7 @@ fn main() {
         "routing" => routing::main(rest),
         "cfgbuild" => cfgbuild::main(rest),
         "fanout" => fanout::main(rest),
+        "literals" => literals::main(rest),
         "envexpand" => envexpand::main(rest),
         "reconfig" => reconfig::main(rest),
         "reloader" => reloader::main(rest),
